@@ -280,6 +280,10 @@ func Ite(c, a, b *Term) *Term {
 	if c.Op == "not" {
 		return Ite(c.Args[0], b, a)
 	}
+	// ite(c, store(x,i,v1), store(x,i,v2)) = store(x, i, ite(c,v1,v2))
+	if a.Op == "store" && b.Op == "store" && a.Args[0] == b.Args[0] && a.Args[1] == b.Args[1] {
+		return Store(a.Args[0], a.Args[1], Ite(c, a.Args[2], b.Args[2]))
+	}
 	return TS.mk("ite", a.S, "", nil, c, a, b)
 }
 
